@@ -23,7 +23,7 @@ LEVEL = "model_checking"
 TECHNIQUE = "explicit-state BFS over the real cache objects against a policy transition relation + exhaustive preemption-bounded interleavings (baton scheduler) with a linearizability oracle"
 RULE = ("A: LRUCache/HybridCache/SimpleCache/DiskCache(+/- in-memory LRU), max_size 1..3, keys a,b,c, values 1,None, durations 0,2,3: BFS over "
         "put/get/clear(/reopen) to depth D (quick: lru 5, hybrid 4, simple 3, disk 3; thorough: 7/5/4/4) from the implementation's own state; contains/len read at every state. B: every 2-thread program "
-        "with 1..2 operations per thread on colliding keys, all interleavings with <= 2 preemptions. C: every history of length <= 3 x every "
+        "with 1..2 operations per thread on colliding keys, all interleavings with <= 2 preemptions. C: every history over put/get/clear of length <= 3 (thorough 4), plus put;clear;put;x, x every "
         "assignment of its steps to two forked processes")
 ASSUMPTIONS = ["shared mode is explored at the granularity of manager-proxy calls (each is one serialized RPC in reality)",
                "DiskCache file age = logical time of the last write (Path.stat is wrapped for files under the cache directory, because kernel ctime ties are real)",
@@ -869,13 +869,22 @@ def _c_histories(tier):
     for kind in ("lru", "hybrid"):
         cfg = {"kind": kind, "max_size": 1}
         put = (lambda k, v: ["put", k, v, 1.0]) if kind == "hybrid" else (lambda k, v: ["put", k, v])
-        alpha = [put("a", 1), put("b", 2), ["get", "a"], ["get", "b"]]
-        L = 2 if tier == "quick" else 3
+        alpha = [put("a", 1), put("b", 2), ["get", "a"], ["get", "b"], ["clear"]]
+        L = 3 if tier == "quick" else 4
         for n in range(1, L + 1):
             for h in itertools.product(alpha, repeat=n):
                 for assign in itertools.product((0, 1), repeat=n):
                     if any(assign):
                         hists.append((cfg, [list(x) for x in h], list(assign)))
+        # one step deeper for the histories "put; clear; put; anything" (what a clear in ONE process leaves for the other)
+        puts = [put("a", 1), put("b", 2)]
+        for x in puts:
+            for y in puts:
+                for z in [*alpha, put("c", 1)]:
+                    h = [x, ["clear"], y, z]
+                    for assign in itertools.product((0, 1), repeat=4):
+                        if any(assign) and len(h) > L:
+                            hists.append((cfg, [list(q) for q in h], list(assign)))
     return hists
 
 
